@@ -63,7 +63,7 @@ def exhaustive(tier):
 
 def plan(tier, seed):
     k = 16 if tier == "quick" else 48
-    return [{"slice": i, "of": k, "scale": 1 if tier == "quick" else 20, "label": "nets%d/%d" % (i, k)} for i in range(k)]
+    return [{"slice": i, "of": k, "scale": 1 if tier == "quick" else 70, "label": "nets%d/%d" % (i, k)} for i in range(k)]
 
 
 def selftest(rec):
